@@ -269,9 +269,10 @@ func ComposeCheck(env *core.Env, rep *core.Report, k int, models ...string) map[
 	}
 	home := env.Sub("home")
 	type exec struct {
-		cfg cmpCfg
-		evs []Event
-		bad string
+		cfg     cmpCfg
+		evs     []Event
+		bad     string
+		crashed bool
 	}
 	out := make([]exec, k)
 	letter := map[int]string{0: "W", 1: "R", 2: "S", 3: "D", 4: "E", 5: "C"}
@@ -285,6 +286,7 @@ func ComposeCheck(env *core.Env, rep *core.Report, k int, models ...string) map[
 		out[i].cfg = c
 		if res.TimedOut || res.Crashed() {
 			out[i].bad = "taskctl crashed or hung: " + tail(res.Stderr, 300)
+			out[i].crashed = res.Crashed()
 			return
 		}
 		files, _ := filepath.Glob(filepath.Join(td, "trace-*.ndjson"))
@@ -413,6 +415,11 @@ func ComposeCheck(env *core.Env, rep *core.Report, k int, models ...string) map[
 				continue
 			}
 			rep.Add(core.Finding{Prop: "C03", Key: "C03:binary:pipeline-run-does-not-complete", What: o.bad, Detail: o.cfg})
+			if o.crashed {
+				// a process that dies in the middle of the run has no outcome at all: no final statuses, no
+				// error that follows from the configuration
+				rep.Add(core.Finding{Prop: "C02", Key: "C02:binary:run-crashed-without-an-outcome", What: o.bad, Detail: o.cfg})
+			}
 			continue
 		}
 		byN[o.cfg.N] = append(byN[o.cfg.N], i)
